@@ -674,3 +674,232 @@ class SeismicFileProducer2d(ProducerContract):
 
 
 register(SeismicFileProducer2d, 'conversion_utils.py::seismic_file_producer_2d', ['C09', 'C20'], [cf for cf in ALL2 if cf[1][1] in IO_B1], modes=('file',))
+
+
+# ---------------------------------------------------------------------------------------------
+# irregular surveys (C08): traces placed by (inline number, crossline number) lookup, holes and padding left zero
+
+UIO_KEY = 'conversion_utils.py::unstructured_io_thread_func'
+PRESENT = z3.Function('PRESENT', z3.IntSort(), z3.IntSort(), z3.BoolSort())     # a source trace carries (inline no, crossline no)
+TID = z3.Function('TID', z3.IntSort(), z3.IntSort(), z3.IntSort())               # its ordinal in the source file
+F32Z = STok(z3.Const('F32_ZERO', F32))
+
+
+def mk_inferred_geom(c, prog, nI, nX, tracecount):
+    """InferredGeometry3d as InferredGeometry3d.__init__ builds it (GetRange contract): axes = progressions of the line numbers present"""
+    min_il = c.sym_int('min_il', name='geom.min_il'); il_step = c.sym_int('il_step', lo=1, name='geom.il_step')
+    min_xl = c.sym_int('min_xl', name='geom.min_xl'); xl_step = c.sym_int('xl_step', lo=1, name='geom.xl_step')
+    max_il = add(min_il, mul(sub(nI, 1), il_step)); max_xl = add(min_xl, mul(sub(nX, 1), xl_step))
+    tr = SObj(None, clsname='$tracesref')
+    tr.fields.update(grid=(min_il, il_step, nI, min_xl, xl_step, nX), tracecount=tracecount)
+    geom = SObj(prog.klass('InferredGeometry3d'), dict(
+        ilines=SRange(min_il, add(max_il, 1), il_step), xlines=SRange(min_xl, add(max_xl, 1), xl_step),
+        min_il=min_il, max_il=max_il, il_step=il_step, min_xl=min_xl, max_xl=max_xl, xl_step=xl_step, traces_ref=tr))
+    return geom
+
+
+def present_at(tr, ilno, xlno):
+    """(ilno, xlno) in traces_ref: only grid positions can carry a trace"""
+    min_il, il_step, nI, min_xl, xl_step, nX = tr.fields['grid']
+    ri, rx = sub(ilno, min_il), sub(xlno, min_xl)
+    in_grid = And(ge(ri, 0), eq(mod(ri, il_step), 0), lt(fdiv(ri, il_step), nI), ge(rx, 0), eq(mod(rx, xl_step), 0), lt(fdiv(rx, xl_step), nX))
+    return And(in_grid, mk_bool(PRESENT(zint(ilno), zint(xlno))))
+
+
+def tid_of(tr, ilno, xlno):
+    t = mk_int(TID(zint(ilno), zint(xlno)))
+    cur().assume(Implies(present_at(tr, ilno, xlno), And(ge(t, 0), lt(t, tr.fields['tracecount']))))
+    return t
+
+
+def register_tracesref(lib):
+    M = lib.methods
+    from pyvc.symex import untag
+
+    def contains(I, tr, key):
+        key = untag(key)
+        return present_at(tr, key[0], key[1])
+    M[('$tracesref', '__contains__')] = contains
+
+    def getitem(I, tr, key):
+        key = untag(key)
+        ok = present_at(tr, key[0], key[1])
+        if not (ok is True or cur().decide(zbool(ok))):
+            raise PyRaise('KeyError')
+        return tid_of(tr, key[0], key[1])
+    M[('$tracesref', '__getitem__')] = getitem
+
+
+MX.EXTRA_REGISTRARS.append(register_tracesref)
+from pyvc.values import PyRaise      # noqa: E402
+
+
+def _uwit(idx, env):
+    if len(idx) == 3:
+        return idx[1]
+    row = add(mul(env['plane_set_id'], env['blockshape'][0]), env['i'])
+    nX = env['geom'].fields['xlines'].length() if hasattr(env['geom'].fields['xlines'], 'length') else None
+    return sub(idx[0], mul(row, nX))
+
+
+class UnstructuredIoThreadFunc(ProducerContract):
+    """buffer[i, x, z] = sample z of the source trace carrying (inline no of row ps*b0+i, crossline no x) when such a trace exists and
+    z < nZ, else 0.0 (holes, rows beyond the grid, sample padding); header f of that trace stored at entry row*nX + x, other entries untouched"""
+    b0 = 4
+    FIELDS = (189, 73)
+
+    def inputs(self, c):
+        prog = c.ex.prog
+        b0 = self.b0
+        nI = c.sym_int('nI', lo=2, name='grid.n_ilines'); nX = c.sym_int('nX', lo=2, name='grid.n_xlines'); nZ = c.sym_int('nZ', lo=2, name='n_samples')
+        tc = c.sym_int('tracecount', lo=1, name='source.tracecount')
+        c.assume(lt(tc, mul(nI, nX)))
+        seg = MX.mk_segy(c, 1, tc, nZ, two_d=True, nT=tc)
+        geom = mk_inferred_geom(c, prog, nI, nX, tc)
+        b1 = c.sym_int('b1', lo=4, name='blockshape[1]'); b2 = c.sym_int('b2', lo=4, name='blockshape[2]')
+        P1 = c.sym_int('P1', name='padded_xl'); P2 = c.sym_int('P2', name='padded_z')
+        c.assume(ge(P1, nX), ge(P2, nZ))
+        ps = c.sym_int('ps', lo=0, name='plane_set_id')
+        c.assume(lt(mul(b0, ps), nI))
+        buf = SArray((b0, P1, P2), lambda idx: F32Z, 'float32')
+        hd = {}
+        for f in self.FIELDS:
+            gf = z3.Function(f'old_hdr{f}', z3.IntSort(), z3.IntSort())
+            hd[f] = SArray((mul(nI, nX),), (lambda gg: (lambda idx: mk_int(gg(zint(idx[0])))))(gf), 'int32')
+        return dict(blockshape=(b0, b1, b2), store_headers=True, headers_dict=hd, geom=geom, plane_set_id=ps, segy_buffer=buf, segyfile=seg,
+                    trace_length=nZ, _n=(nI, nX, nZ), _P=(P1, P2), _old={f: hd[f].fn for f in self.FIELDS})
+
+    def post(self, c, a, result):
+        nI, nX, nZ = a['_n']
+        P1, P2 = a['_P']
+        b0 = self.b0
+        ps = a['plane_set_id']
+        geom = a['geom']
+        tr = geom.fields['traces_ref']
+        G = geom.fields
+        buf = a['segy_buffer']
+        e = O.skolem_index(c, (b0, P1, P2), base='be')
+        row = add(mul(b0, ps), e[0])
+        ilno = add(G['min_il'], mul(row, G['il_step'])); xlno = add(G['min_xl'], mul(e[1], G['xl_step']))
+        has = And(lt(e[1], nX), present_at(tr, ilno, xlno))
+        got = buf.fn(e)
+        c.ensure(Implies(And(has, lt(e[2], nZ)), got == MX.src(0, tid_of(tr, ilno, xlno), e[2])), 'buffer.populated_position_holds_its_source_trace')
+        c.ensure(Implies(Not(And(has, lt(e[2], nZ))), got == F32Z), 'buffer.holes_and_padding_are_zero')
+        x = c.sym_int('hx', lo=0, name='grid_crossline_index')
+        c.assume(lt(x, nX))
+        for f in self.FIELDS:
+            arr = a['headers_dict'][f]
+            for i in range(b0):
+                r = add(mul(b0, ps), i)
+                iln = add(G['min_il'], mul(r, G['il_step'])); xln = add(G['min_xl'], mul(x, G['xl_step']))
+                j = add(mul(r, nX), x)
+                here = present_at(tr, iln, xln)
+                c.ensure(Implies(And(here, lt(r, nI)), eq(arr.fn((j,)), MX.hsrc(tid_of(tr, iln, xln), f))), f'header{f}.row{i}.populated_entry_is_the_header_of_its_trace')
+                c.ensure(Implies(And(Not(here), lt(r, nI)), eq(arr.fn((j,)), a['_old'][f]((j,)))), f'header{f}.row{i}.hole_entry_untouched')
+
+
+for _b0 in (4, 8):
+    _cls = type(f'UnstructuredIoThreadFunc_b{_b0}', (UnstructuredIoThreadFunc,), dict(b0=_b0, variant=f'b0={_b0}'))
+    _cls.loops = {(UIO_KEY, k): L.IndependentWrites(witness=_uwit, guarded_stores=True) for k in range(1, 60)}
+    fuc(UIO_KEY, props=['C08', 'C04'])(_cls)
+
+
+class UnstructuredIoModular(UnstructuredIoThreadFunc):
+    variant = 'call-site view'
+    exact_result = True
+    verify = IoThreadFuncModular.verify
+
+    def post(self, c, a, result):
+        pass
+
+    def pre(self, c, a):
+        b0 = a['blockshape'][0]
+        buf = a['segy_buffer']
+        return [mk_bool(isinstance(b0, int) and b0 in (4, 8)), mk_bool(isinstance(buf, SArray) and len(buf.shape) == 3) and eq(buf.shape[0], b0),
+                mk_bool(getattr(buf, 'fresh_zeros', False)), ge(a['plane_set_id'], 0)]
+
+    def fresh_result(self, c, a):
+        return None
+
+    def effects(self, c, a, result):
+        from pyvc.npmodel import ite_val
+        geom = a['geom']
+        G = geom.fields
+        tr = G['traces_ref']
+        nX = G['xlines'].length()
+        nZ = a['trace_length']
+        b0 = a['blockshape'][0]
+        ps = a['plane_set_id']
+        buf = a['segy_buffer']
+
+        def fn(idx):
+            row = add(mul(b0, ps), idx[0])
+            ilno = add(G['min_il'], mul(row, G['il_step'])); xlno = add(G['min_xl'], mul(idx[1], G['xl_step']))
+            has = And(lt(idx[1], nX), lt(idx[2], nZ), present_at(tr, ilno, xlno))
+            return ite_val(has, MX.src(0, tid_of(tr, ilno, xlno), idx[2]), F32Z)
+        buf.fn = fn
+        buf.fresh_zeros = False
+        c.ghost.setdefault('header_rows', []).append(dict(ps=ps))
+
+
+fuc(UIO_KEY, props=[], modular=True)(UnstructuredIoModular)
+
+
+class SeismicFileProducerIrregular(SeismicFileProducer):
+    """irregular survey: every array put = the zero-filled, zero-extended grid on its box (source trace where one exists, 0.0 at holes and
+    in all padding), cells at the specified offsets; header arrays re-allocated to one int32 entry per grid position"""
+    reduce_iops = False
+    loops = {2: L.EventLoop(), 3: L.EventLoop(), 4: L.EventLoop(), 5: L.EventLoop()}      # (loop 1 is the header re-allocation over the dict)
+
+    def inputs(self, c):
+        prog = c.ex.prog
+        rate, b = self.cfg
+        nI = c.sym_int('nI', lo=2, name='grid.n_ilines'); nX = c.sym_int('nX', lo=2, name='grid.n_xlines'); nZ = c.sym_int('nZ', lo=2, name='n_samples')
+        tc = c.sym_int('tracecount', lo=1, name='source.tracecount')
+        c.assume(lt(tc, mul(nI, nX)))
+        seg = MX.mk_segy(c, 1, tc, nZ, two_d=True, nT=tc)
+        geom = mk_inferred_geom(c, prog, nI, nX, tc)
+        n = (nI, nX, nZ)
+        G = []
+        for k in range(3):
+            Gk = c.sym_int(f'G{k}', lo=1, name=f'blocks_axis{k}')
+            c.assume(le(n[k], mul(b[k], Gk)), lt(sub(mul(b[k], Gk), b[k]), n[k]))
+            G.append(Gk)
+        P = [mul(b[k], G[k]) for k in range(3)]
+        a_ = [bb // 4 for bb in b]
+        ub = S.unit_bytes(rate, 3)
+        q = SObj(None, clsname='$queue')
+        gf = geom.fields
+        tr = gf['traces_ref']
+        import contracts.c_producers as CP
+        base_hook = self.put_hook(n, G, P, a_, ub)
+
+        def zero_filled(nn, i, x, z):
+            from pyvc.npmodel import ite_val
+            ilno = add(gf['min_il'], mul(i, gf['il_step'])); xlno = add(gf['min_xl'], mul(x, gf['xl_step']))
+            has = And(lt(x, nX), lt(z, nZ), present_at(tr, ilno, xlno))
+            return ite_val(has, MX.src(0, tid_of(tr, ilno, xlno), z), F32Z)
+
+        def hook(cc, ev):
+            old = CP.edgepad
+            CP.edgepad = zero_filled
+            try:
+                base_hook(cc, ev)
+            finally:
+                CP.edgepad = old
+        q.fields['on_put'] = hook
+        h = SObj(None, clsname='$hash')
+        h.fields.update(log=[], alg='sha1', on_update=lambda cc, ev: None)
+        hd = {189: SArray((0,), lambda idx: 0, 'int32'), 73: SArray((0,), lambda idx: 0, 'int32')}
+        return dict(queue=q, seismicfile=seg, blockshape=tuple(b), store_headers=True, headers_dict=hd, geom=geom, hash_object=h,
+                    reduce_iops=False, verbose=False, _n=n)
+
+    def post(self, c, a, result):
+        SeismicFileProducer.post(self, c, a, result)
+        nI, nX, nZ = a['_n']
+        for k, arr in a['headers_dict'].items():
+            ok = isinstance(arr, SArray) and arr.dtype == 'int32' and len(arr.shape) == 1
+            c.ensure(mk_bool(ok) and eq(arr.shape[0], mul(nI, nX)), f'headers_dict[{k}].one_int32_entry_per_grid_position')
+
+
+register(SeismicFileProducerIrregular, 'conversion_utils.py::seismic_file_producer', ['C08'], [cf for cf in CFG_DEFAULT[:3] + CFG_GENERAL[:3] if cf[1][0] in (4, 8)], modes=('file',), tag='irregular')
